@@ -28,9 +28,9 @@ theorem C06_div (h r : H1) (c : Rat) (hr : h.idiv c = .ok r) :
   obtain ⟨_, _, a, b, c1, d, e, _, f, _⟩ := idiv_ok h r c hr
   exact ⟨a, b, c1, d, e, f⟩
 
-/-- `c * h` and `h * c` are the same operation (`__rmul__` is `__mul__`); what a scalar kind
-    contributes is only its numpy dtype. -/
-theorem C06_comm (h : H1) (c : Rat) (k : NumKind) : h.imul c k = h.imul c k := rfl
+/-! `c * h == h * c`: the model has a single scaling operation (`__rmul__` is `__mul__` in physt), so
+    there is nothing to prove *in the model*; that the implementation's two spellings agree is checked
+    by the correspondence (ops `mul` and `rmul` are both compared with `imul`) and by the oracle. -/
 
 theorem nscale_nscale (a : NRat) (c : Rat) (hc : c ≠ 0) : nscale (nscale a c) (1 / c) = a := by
   cases a with
